@@ -24,7 +24,7 @@ class HStory:
                  kinds=spec.STORY_KINDS, init_max=None, rich=False, nmeta=3, packings=('one', 'per'),
                  pretty_msgs=False, replace_variant=0, no_expand=('StorySend',), bodies=None, explicit=None,
                  edstart=True, send_bodies=None):
-        self.pool = gen.STORY_POOL[:pool]
+        self.pool = list(pool) if isinstance(pool, (list, tuple)) else gen.STORY_POOL[:pool]
         self.cap = cap
         self.max_list = max_list
         self.layouts = layouts
@@ -237,7 +237,7 @@ class HItem:
     def __init__(self, pool=5, cap=4, max_list=2, patterns=('plain', 'p-between', 'foreign'),
                  positions=('first', 'second'), kinds=spec.ITEM_KINDS, init_max=None, rich=False,
                  packings=('one', 'per'), layout='before', pretty_msgs=False, timing='dur'):
-        self.pool = gen.ITEM_POOL[:pool]
+        self.pool = list(pool) if isinstance(pool, (list, tuple)) else gen.ITEM_POOL[:pool]
         self.cap = cap
         self.max_list = max_list
         self.patterns = patterns
